@@ -65,6 +65,7 @@ type Rec struct {
 	Cold  []RootObs `json:"cold"`  // commit events: the roots as reconstructed by a brand-new storage from the registers alone
 	Regs  []RegObs  `json:"regs"`  // commit / run-end events: every register (canonical id, short hash, length)
 	Known bool      `json:"known"` // Load: cold holds the roots observed from the registers at the last successful commit
+	Probe ProbeObs  `json:"probe"` // probe events (iterators, bulk build, copy)
 }
 
 type CallObs struct {
@@ -142,7 +143,7 @@ func (w *World) rec(t int, ev string, op Op, res Res) Rec {
 		}
 	}
 	r := Rec{T: t, Ev: ev, Op: op.Op, Hv: hv, Keep: op.Keep, H: op.H, I: op.I, J: op.J, E: op.E, K: op.K, Kd: kd, Ti: op.Ti, Res: res, Roots: roots, St: st, Cfg: w.cfg(),
-		Mode: op.Mode, Calls: []CallObs{}, Cold: []RootObs{}, Regs: []RegObs{}}
+		Mode: op.Mode, Calls: []CallObs{}, Cold: []RootObs{}, Regs: []RegObs{}, Probe: emptyProbe()}
 	if w.lastCalls != nil {
 		r.Calls = w.lastCalls
 		w.lastCalls = nil
